@@ -79,39 +79,41 @@ const xUnset = "<unset>"
 
 // the failure classes of C12 as concrete Jet expressions over the harness globals (see xBuild)
 var errExpr = map[string]string{
-	"identifier":         "nosuchvar",
-	"field":              "gst.Nosuch",
-	"unexported":         "gst.hidden",
-	"method":             "gst.NoMethod()",
-	"nilderef":           "gnilp.Name",
-	"mapfield-ok":        "gst.Nosuch.Deeper",
-	"index-range":        "gsl[5]",
-	"index-len":          "gsl[3]",
-	"index-empty":        "gempty[0]",
-	"index-neg":          "gsl[-1]",
-	"index-str":          "gstr[7]",
-	"index-strlen":       "gstr[3]",
-	"index-kind":         `gsl["x"]`,
-	"index-nil":          "gsl[nil]",
-	"slice-bound":        "gsl[1:9]",
-	"slice-kind":         `gsl["a":2]`,
-	"operand-mul":        `gstr * 2`,
-	"operand-add":        `gst + 1`,
-	"operand-neg":        `-gstr`,
-	"operand-cmp":        `gstr < 1`,
-	"calltarget":         "gstr(1)",
-	"calltarget-nil":     "gnil(1)",
-	"argcount":           `lower("a", "b")`,
-	"argcount-jetfunc":   `len("a", "b")`,
-	"argtype":            `repeat("a", "b")`,
-	"arg-invalid":        `lower(gnil)`,
-	"underscore":         `lower(_)`,
-	"underscore-jetfunc": `len(_)`,
-	"func":               "fail()",
-	"len-kind":           "len(5)",
-	"ints-range":         "ints(3, 1)",
-	"pipe-nonfunc":       `"a" | gstr`,
-	"safewriter-notlast": `"a" | raw | lower`,
+	"identifier":          "nosuchvar",
+	"field":               "gst.Nosuch",
+	"unexported":          "gst.hidden",
+	"method":              "gst.NoMethod()",
+	"nilderef":            "gnilp.Name",
+	"mapfield-ok":         "gst.Nosuch.Deeper",
+	"index-range":         "gsl[5]",
+	"index-len":           "gsl[3]",
+	"index-empty":         "gempty[0]",
+	"index-neg":           "gsl[-1]",
+	"index-str":           "gstr[7]",
+	"index-strlen":        "gstr[3]",
+	"index-kind":          `gsl["x"]`,
+	"index-nil":           "gsl[nil]",
+	"slice-bound":         "gsl[1:9]",
+	"slice-kind":          `gsl["a":2]`,
+	"operand-mul":         `gstr * 2`,
+	"operand-add":         `gst + 1`,
+	"operand-neg":         `-gstr`,
+	"operand-cmp":         `gstr < 1`,
+	"calltarget":          "gstr(1)",
+	"calltarget-nil":      "gnil(1)",
+	"argcount":            `lower("a", "b")`,
+	"argcount-jetfunc":    `len("a", "b")`,
+	"argtype":             `repeat("a", "b")`,
+	"arg-invalid":         `lower(gnil)`,
+	"underscore":          `lower(_)`,
+	"underscore-jetfunc":  `len(_)`,
+	"underscore-variadic": `gjoin("-", "a", _)`,
+	"argcount-variadic":   `gjoin()`,
+	"func":                "fail()",
+	"len-kind":            "len(5)",
+	"ints-range":          "ints(3, 1)",
+	"pipe-nonfunc":        `"a" | gstr`,
+	"safewriter-notlast":  `"a" | raw | lower`,
 }
 
 type gStruct struct {
@@ -544,6 +546,7 @@ func xBuildOpt(c *xCase, esc jet.SafeWriter, useEsc bool, html bool) (*xWorld, e
 		w.Write(b)
 		w.Write([]byte("}"))
 	}))
+	set.AddGlobal("gjoin", func(sep string, parts ...string) string { return strings.Join(parts, sep) })
 	set.AddGlobal("gst", gStruct{Name: "n"})
 	set.AddGlobal("gnilp", (*gStruct)(nil))
 	set.AddGlobal("gsl", []string{"a", "b", "c"})
